@@ -29,11 +29,11 @@ type vf12Obj struct {
 }
 
 type vf12Fault struct {
-	name  string
-	class string
-	get   *vlib.GetFault
-	cont  *vlib.ContainsFault
-	ctxCancel bool
+	name       string
+	class      string
+	get        *vlib.GetFault
+	cont       *vlib.ContainsFault
+	ctxCancel  bool
 	oversizeBy int64 // >0: configure max_proxy_blob_size = logical size - oversizeBy
 }
 
